@@ -413,9 +413,10 @@ def cpSettled (s : Sys) (th : Tid) : Bool :=
     else (heldBy s tb).isSome
 
 /-- `commit_inner` (since the DELETE fix): a row handler of a row-set that is not in the update
-transaction's snapshot any more (a compaction replaced it after the scan) makes the DELETE fail -/
+transaction's snapshot any more (a compaction replaced it after the scan), or of a row that is already deleted in that snapshot (a
+concurrent DELETE committed after the scan), makes the DELETE fail -/
 def handlersGone (snap : Snap) (hs : List (Key × Nat)) : Bool :=
-  hs.any (fun h => !snap.rs.contains h.1)
+  hs.any (fun h => !snap.rs.contains h.1 || (deadPos snap h.1).contains h.2)
 
 /-- result of a finished command -/
 def resultOf (s : Sys) (th : Tid) (t : Th) : Option Res :=
@@ -587,8 +588,12 @@ def stepCommitBegin (s : Sys) (th : Tid) : Option Sys :=
        | some (.create n), .none =>
            if p.isBound then some (setTh s th { t with begun := true, ops := [.create n] }) else none
        | some (.drop _), .none =>
+           -- DROP TABLE took the table's deletion lock before it pinned
            (match p.btab with
-            | some tb => some (setTh s th { t with begun := true, ops := dropOps (s.k.status t.snapE) tb })
+            | some tb =>
+                if (heldBy s tb).isSome then none
+                else some (setTh { s with tlocks := (tb, th) :: s.tlocks } th
+                  { t with begun := true, ops := dropOps (s.k.status t.snapE) tb })
             | none => none)
        | _, _ => none)
 
@@ -601,21 +606,13 @@ def stepCommitA (s : Sys) (th : Tid) : Option Sys :=
 
 def stepPanic (s : Sys) (th : Tid) : Option Sys :=
   let t := getTh s th
-  if th.2 == 0 && t.cmd != some Cmd.compact then
-    -- `Builder::new`: `catalog.get_table(tid).unwrap()` for a statement whose table was dropped
-    -- between binding and building the executors
-    (match t.cmd, t.isBound, t.btab with
-     | some _, true, some tb =>
-         if s.tables.contains tb then none else some (setTh s th { t with res := some .panic })
-     | _, _, _ => none)
-  else if !t.begun || t.committed then none
+  -- (a statement bound to a table that was dropped meanwhile no longer panics in
+  -- `Builder::new`: it fails with "table not found", see `resultOf`)
+  if !t.begun || t.committed then none
   else (match kCommitAPanic s.k th t.ops with
         | some k' =>
             let s1 := unlockAll (withK s k') th
             let p := getTh s1 (parent th)
-            -- the compactor pass runs on the actor's own task: the pass panics.  A statement's
-            -- operator task that panics closes its channel, which the session reads as the end
-            -- of the stream: the statement returns Ok with no rows.
             let r := if th.2 == 0 then Res.panic else Res.rows []
             some (setTh s1 (parent th) { p with res := some r })
         | none => none)
